@@ -71,14 +71,14 @@ BaseInstances ==
   \cup {Inst("transparent_arity", d, "transparent", s, p, FALSE) : d \in {"Display", "AsRefStr", "IntoStaticStr"}, s \in {"unit", "tuple2", "named2", "tuple0"}, p \in {"first", "last"}}
   \* placeholders on a unit variant; an empty {} on a tuple variant
   \cup {Inst("unit_placeholder", "Display", "to_string", s, p, FALSE) : s \in {"index", "name", "spec", "via_serialize", "via_prefix",
-                                                                            "nonascii_arg", "nonascii_before", "nonascii_around", "nonascii_prefix"}, p \in {"first", "last"}}
+                                                                            "nonascii_arg", "nonascii_before", "nonascii_around", "nonascii_prefix", "names_const_in_scope", "names_static_in_scope"}, p \in {"first", "last"}}
   \cup {Inst("empty_placeholder", "Display", "to_string", "tuple1", p, FALSE) : p \in {"first", "last"}}
   \* an unknown serialize_all style
   \cup {Inst("unknown_style", d, "serialize_all", s, "", FALSE) : d \in UsesEnumKw("serialize_all"), s \in NearMissStyles}
   \* only one of parse_err_ty / parse_err_fn
   \cup {Inst("lone_parse_err", "EnumString", k, s, "", FALSE) : k \in {"parse_err_ty", "parse_err_fn"}, s \in {"", "with_default_first", "with_default_last"}}
   \* an unsupported property literal
-  \cup {Inst("prop_literal", "EnumProperty", "props", s, p, FALSE) : s \in {"float", "char", "bytestr", "byte"}, p \in {"first", "last"}}
+  \cup {Inst("prop_literal", "EnumProperty", "props", s, p, FALSE) : s \in {"float", "char", "bytestr", "byte", "float_after_same_key", "float_after_same_key_split", "char_before_same_key"}, p \in {"first", "last"}}
   \* an unknown keyword
   \cup {Inst("unknown_kw", d, "", s, "", FALSE) : d \in Derives \ {"EnumIs", "EnumTryAs", "EnumTable", "FromRepr", "VariantArray", "EnumDiscriminants"}, s \in {"enum", "variant"}}
 
